@@ -75,10 +75,11 @@ const (
 	sPostOnly // For(nil, post, body)
 	sCombine
 	sIte // state-dependent branch
+	sTwice // one Seq value used twice
 )
 
 var leafKinds = []shapeKind{sNormal, sBrk, sCont, sRet, sRetV}
-var unaryKinds = []shapeKind{sBind, sDelay, sFor, sWhile, sLoop, sPostOnly}
+var unaryKinds = []shapeKind{sBind, sDelay, sFor, sWhile, sLoop, sPostOnly, sTwice}
 
 type shape struct {
 	k    shapeKind
@@ -136,6 +137,8 @@ func (d *deco) decorate(s *shape) *CTerm {
 	case sCombine:
 		a := d.decorate(s.a)
 		return &CTerm{K: KCombine, A: a, B: d.decorate(s.b)}
+	case sTwice:
+		return &CTerm{K: KTwice, A: d.decorate(s.a)}
 	case sIte:
 		c := d.cond()
 		a := d.decorate(s.a)
